@@ -325,7 +325,9 @@ def reference_query(kind, rows, include_empty, offset, limit, selector):
         if kind == "AuthorKey":
             if r["kmatch"] and (include_empty or not r["empty"]):
                 cand.append(("ok", i))
-        elif r["amatch"]:
+        elif r["amatch"] or selector:
+            # a latest-per-key query selects among the entries of ALL authors ("the entry with the greatest timestamp among all
+            # authors"; store::Query: "the author filter is applied *after* the grouping"); a flat query filters every row
             cand.append(("ok", i))
     if kind != "AuthorKey":
         if selector:
@@ -338,7 +340,7 @@ def reference_query(kind, rows, include_empty, offset, limit, selector):
                         out[-1] = (st, i)
                 else:
                     out.append((st, i))
-            cand = out
+            cand = [(st, i) for st, i in out if st == "err" or rows[i]["amatch"]]
         cand = [(st, i) for st, i in cand if st == "err" or include_empty or not rows[i]["empty"]]
     res = []
     skipped = 0
